@@ -101,13 +101,14 @@ type sentSettings struct {
 }
 
 type h2eng struct {
-	s     *simrt.Sim
-	tp    *simrt.Tape
-	focus string
-	net   *simnet.Net
-	cli   *simnet.Conn
-	srvc  *simnet.Conn
-	sc    *serverConn
+	closeNotifyCh chan bool // closed = the server process begins a graceful shutdown (reload / exit)
+	s             *simrt.Sim
+	tp            *simrt.Tape
+	focus         string
+	net           *simnet.Net
+	cli           *simnet.Conn
+	srvc          *simnet.Conn
+	sc            *serverConn
 
 	wmu  simsync.Mutex // serialises client frame writes (script task + reader reactions)
 	fr   *xh2.Framer
@@ -177,7 +178,8 @@ func (e *h2eng) start(srv *Server, settings []xh2.Setting) {
 	e.henc = xhpack.NewEncoder(&e.hbuf)
 	e.hdec = xhpack.NewDecoder(4096, nil)
 	testHookGetServerConn = func(sc *serverConn) { e.sc = sc }
-	base := &http.Server{ReadTimeout: 10 * time.Minute, WriteTimeout: 10 * time.Minute}
+	e.closeNotifyCh = make(chan bool)
+	base := &http.Server{ReadTimeout: 10 * time.Minute, WriteTimeout: 10 * time.Minute, CloseNotifyCh: e.closeNotifyCh, GracefulShutdownTimeout: 10 * time.Minute}
 	simrt.GoNamed("h2server", nil, func() {
 		srv.ServeConn(e.srvc, &ServeConnOpts{BaseConfig: base, Handler: http.HandlerFunc(e.serveHTTP)})
 		e.srvDone = true
